@@ -197,7 +197,7 @@ void h_silf(void)
                  'the prev/next links of a slot that is freed in this call do not lead to another slot freed in this call (delete_ repairs the neighbours of each slot it unlinks)',
                  'call site findNDoRule: the map holds at least one slot (m_size >= 1) - with m_size == 0 the loop bound end()-1 lies before begin()'],
   'claims':'SlotMap::collectGarbage frees exactly the slots marked deleted or copied that are named by cells 1 .. m_size-1 of the slot map (never the trailing slot, never cell 0, never a live slot), each once even if named twice; a cursor on a freed slot moves to the predecessor it had, else its successor, and ends on a slot that is not freed; any other cursor, the map cells and the map size are not written; every cell read lies inside the map'}@*/
-/*@unit {'name':'c06_finalise_dir', 'props':['C06','C19'], 'entry':'h_fin', 'enforce':'Segment_finalise', 'defines':['PASS','FIN'], 'unwind':8,
+/*@unit {'name':'c06_finalise_dir', 'props':['C06','C19','C02'], 'entry':'h_fin', 'enforce':'Segment_finalise', 'defines':['PASS','FIN'], 'unwind':8,
   'assumptions':['positionSlots, reverseSlots (unit c03_reverse), linkClusters and Silf::dir are ghost models with a call log'],
   'claims':'Segment::finalise (the step after the last pass): when the caller asks for it the stream is turned round at most once, after the final positions were computed, so that at return its direction equals the requested one (reversed flag xor direction bit = direction bit); only the reversed flag of m_dir changes; an empty stream is left alone; clusters are linked last, over the stream as handed out'}@*/
 
